@@ -18,6 +18,8 @@ DICT_METHODS = {"items", "keys", "values", "get"}
 # =========================================================================================
 def getattr_value(E, path, o, name, frame):
     facts = E.facts
+    if hasattr(o, "sym_getattr"):
+        return o.sym_getattr(E, path, name)
     if isinstance(o, (Obj, ExcVal)):
         if name in o.attrs:
             return o.attrs[name]
@@ -226,6 +228,8 @@ def isinstance_value(E, path, v, c):
 
 
 def _static_mro(E, v):
+    if hasattr(v, "sym_mro"):
+        return v.sym_mro
     if v is None:
         return ["builtins.NoneType", "builtins.object"]
     if isinstance(v, (bool, SBool)):
